@@ -36,9 +36,10 @@ type SCase struct {
 	SendStall []int      `json:"send_stall"` // indices of the responder's sends to A that stall until "unstall"
 	SendFail  []int      `json:"send_fail"`  // indices of the responder's sends to A that fail
 	BStall    []int      `json:"b_stall"`    // indices of the responder's sends to B that stall until "unstall"
+	BHoldAt   int        `json:"b_hold_at"`  // B's traversal is held inside the block hook at this block index until "release" (0 = never)
 	BRoot     int        `json:"b_root"`
 	BWhole    bool       `json:"b_whole"` // B asks for the whole DAG below its root (else just the root node)
-	Ops       []string   `json:"ops"`     // acancel aunpause bnew bcancel release unstall wait
+	Ops       []string   `json:"ops"`     // acancel aunpause bnew bcancel release unstall wait adisc
 	Retries   int        `json:"retries"`
 }
 
@@ -59,6 +60,9 @@ func genSame(t *rapid.T) SCase {
 	if rapid.IntRange(0, 2).Draw(t, "hasbstall") == 0 {
 		c.BStall = []int{rapid.IntRange(0, 2).Draw(t, "bstall")}
 	}
+	if rapid.IntRange(0, 3).Draw(t, "hasbhold") == 0 {
+		c.BHoldAt = rapid.IntRange(1, 3).Draw(t, "bholdat")
+	}
 	c.BRoot = rapid.IntRange(0, 20).Draw(t, "broot")
 	c.BWhole = rapid.Bool().Draw(t, "bwhole")
 	n := rapid.IntRange(2, 8).Draw(t, "nops")
@@ -68,6 +72,12 @@ func genSame(t *rapid.T) SCase {
 		c.PauseAt, c.StallAt = 0, 0
 		c.SendStall = []int{0, rapid.IntRange(1, 3).Draw(t, "second")}
 		c.Ops = append(c.Ops, "acancel", "bnew")
+	case 2:
+		// A's response is paused with its first message still held in the network; A cancels; B arrives and
+		// is being served when A's connection breaks and the held message fails
+		c.PauseAt, c.StallAt, c.SendStall, c.SendFail = 1, 0, []int{0}, nil
+		c.BHoldAt, c.BWhole, c.BRoot = rapid.IntRange(1, 2).Draw(t, "bh"), true, 0
+		c.Ops = append(c.Ops, "acancel", "bnew", "adisc", "release")
 	case 1:
 		// A's response was paused and resumed, the resumed traversal is held in a hook; A cancels; B arrives
 		c.PauseAt = rapid.IntRange(1, 2).Draw(t, "p")
@@ -78,7 +88,7 @@ func genSame(t *rapid.T) SCase {
 		}
 	}
 	for i := 0; i < n; i++ {
-		c.Ops = append(c.Ops, rapid.SampledFrom([]string{"acancel", "aunpause", "bnew", "bnew", "bcancel", "release", "unstall", "wait"}).Draw(t, "op"))
+		c.Ops = append(c.Ops, rapid.SampledFrom([]string{"acancel", "aunpause", "bnew", "bnew", "bcancel", "release", "unstall", "wait", "adisc"}).Draw(t, "op"))
 	}
 	return c
 }
@@ -180,6 +190,9 @@ func runSame(c SCase, b *dagen.Built, withA, withB bool) sameRes {
 		w.AddScripted(peerA)
 		w.AddScripted(peerB)
 		rs.GS.RegisterOutgoingBlockHook(func(p peer.ID, rd graphsync.RequestData, bd graphsync.BlockData, ha graphsync.OutgoingBlockHookActions) {
+			if p == peerB && rd.ID() == id && c.BHoldAt > 0 && bd.Index() == int64(c.BHoldAt) && !released {
+				<-stall
+			}
 			if p != peerA || rd.ID() != id {
 				return
 			}
@@ -257,6 +270,10 @@ func runSame(c SCase, b *dagen.Built, withA, withB bool) sameRes {
 					released = true
 					close(stall)
 				}
+				w.Quiesce()
+			case "adisc":
+				// A's connection breaks: whatever is stalled on it fails (in every run, whoever else is there)
+				w.Net.Disconnect(scen.RespID, peerA)
 				w.Quiesce()
 			case "unstall":
 				w.Net.ReleaseBlocked()
@@ -344,13 +361,25 @@ func judgeSame(c SCase) *pbt.Verdict {
 		v.Label("A-cancels-its-own-request")
 	}
 	v.NonTrivial = acted && (full.bWhileLive != "" || full.bAccepted)
-	if full.a != aOnly.a {
+	// A's own faults (a failing send, its connection breaking) cut A's response at a point that depends on
+	// how the responder happened to batch blocks into messages: not comparable between two runs. What they
+	// must never do is reach B, which is judged below in every case.
+	aFaulty := len(c.SendFail) > 0
+	for _, op := range c.Ops {
+		if op == "adisc" {
+			aFaulty = true
+		}
+	}
+	if aFaulty {
+		v.Label("A-has-network-faults")
+	}
+	if !aFaulty && full.a != aOnly.a {
 		return v.Failf("what the responder sent to peer A differs when peer B uses the same request id:\n--- without B ---\n%s\n--- with B ---\n%s", aOnly.a, full.a)
 	}
-	if full.aEv != aOnly.aEv {
+	if !aFaulty && full.aEv != aOnly.aEv {
 		return v.Failf("listener events for peer A differ: without B [%s], with B [%s]", aOnly.aEv, full.aEv)
 	}
-	if full.aSt != aOnly.aSt {
+	if !aFaulty && full.aSt != aOnly.aSt {
 		return v.Failf("PeerState(A) differs at the end: without B [%s], with B [%s]", aOnly.aSt, full.aSt)
 	}
 	ignored := full.b == "" && full.bEv == "" && full.bSt == ""
